@@ -35,6 +35,10 @@ type Solver struct {
 	MaxQuery  time.Duration
 	Errors    int
 	TimeoutMs int
+	// FallbackMs > 0: a query this process answers "unknown" is put to cvc5 with that time limit
+	FallbackMs      int
+	FallbackQueries int
+	FallbackDecided int
 	Log       io.Writer
 	ctx       *Ctx
 	kind      string
@@ -242,6 +246,19 @@ func (s *Solver) Check(pc []*Term, extra *Term, wantModel bool, vars []*Term) (R
 	}
 	if extra != nil {
 		s.send("(pop 1)")
+	}
+	if res == Unknown && s.FallbackMs > 0 && s.kind != "cvc5" {
+		// second opinion from a different solver on a fresh process (cvc5 decides
+		// several floating-point / division queries on which z3 gives up)
+		if fb, err := NewSolver(s.ctx, "cvc5", s.FallbackMs); err == nil {
+			r2, m2 := fb.Check(pc, extra, wantModel, vars)
+			s.FallbackQueries++
+			if fb.Errors == 0 && r2 != Unknown {
+				s.FallbackDecided++
+				res, m = r2, m2
+			}
+			fb.Close()
+		}
 	}
 	return res, m
 }
